@@ -16,6 +16,8 @@ import sys
 import tempfile
 import time
 
+from mpmath import mpf
+
 from .. import gen
 from .. import refmodel as R
 from ..verdict import Result
@@ -193,8 +195,11 @@ class Prober:
                 self.sources.append(src)
         return f
 
-    def run(self, label, cell, src, args, scale=1.0, unpack=None):
-        """interpret and compile-run one probe; returns nothing, records in res"""
+    def run(self, label, cell, src, args, scale=1.0, unpack=None, knife_edge=()):
+        """interpret and compile-run one probe; returns nothing, records in res.
+        knife_edge: members whose exact answer sits on a rounding knife edge for these operands (== of the same vector
+        written in two coordinate systems) -- counted, not judged.  Azimuthal differences are compared modulo 2 pi
+        (-pi and +pi are the same direction)."""
         res = self.res
         f = self.fn(src)
         res.evaluations += 1
@@ -226,7 +231,15 @@ class Prober:
             members = [(None, want, got)]
         bad = False
         for name, w_, g_ in members:
+            if name in knife_edge:
+                res.count("member_on_rounding_knife_edge_not_judged")
+                continue
             why = compare(w_, g_, scale)
+            if why and name in ("deltaphi", "phi") and isinstance(w_, tuple) and w_[0] == "num" and isinstance(g_, tuple) and g_[0] == "num":
+                import math
+                d = abs(w_[1] - g_[1]) % (2 * math.pi)
+                if min(d, 2 * math.pi - d) <= 1e-9:
+                    why = None
             if not why:
                 continue
             bad = True
@@ -444,6 +457,35 @@ def run_binary(spec, tier, seed, res, P, methods, attrs, funcs):
             w, sc2 = _vec(r, s_other, m2)
             cell = f"{R.sysname(system)}|{R.sysname(s_other)}|{int(m1)}{int(m2)}"
             P.run("binary-same-dimension", cell, probe_src(regs), (v, w), (sc1 + sc2) ** 2 * 4, unpack=regs)
+            # the same compiled specialisation on *related* operands, where predicates and comparisons say yes: the second
+            # operand is the first one itself written in the other system, a positive multiple, a negative multiple of the
+            # spatial part, and (3-D, 4-D) a vector perpendicular to it
+            from .. import backends as B_
+            from ..engine import LVec as LVec_
+
+            sysA, stA = B_.obj_stored(v)
+            rv = B_.to_rv(sysA, stA)
+            c = list(rv.comps())
+            rel = {"same-vector": c, "positive-multiple": [2 * x for x in c],
+                   "antiparallel": [-1.5 * x for x in c[:3]] + ([1.5 * c[3]] if dim == 4 else [])}
+            if dim >= 3:
+                perp = [c[1], -c[0], mpf(0)]   # (x, y, z) . (y, -x, 0) = 0
+                if dim == 4:
+                    perp.append(c[3])
+                rel["perpendicular"] = perp
+            # (only the scalar- and truth-valued members: v - v is the zero vector, whose conversion into theta / eta
+            #  storage is singular -- compiled code raises ZeroDivisionError there, the interpreter returns NaN; not
+            #  "well-conditioned operands")
+            regs_rel = [n_ for n_ in regs if n_ in ("dot", "equal", "not_equal", "isclose", "deltaphi", "is_parallel", "is_antiparallel",
+                                                    "is_perpendicular", "deltaangle", "deltaeta", "deltaR", "deltaR2")]
+            for rname, comps in rel.items():
+                try:
+                    lw = LVec_(R.RV(*comps), s_other, m2)
+                    w2 = B_.mk_obj(s_other, lw.f64()[0], m2)
+                except R.NotRepresentable:
+                    continue
+                P.run("binary-related-operands", cell + "|" + rname, probe_src(regs_rel), (v, w2), (sc1 + sc2) ** 2 * 8, unpack=regs_rel,
+                      knife_edge=("equal", "not_equal") if (rname == "same-vector" and tuple(s_other) != tuple(system)) else ())
     if dim < 4 and tuple(system) == R.SYSTEMS[dim][0]:
         # operands of unequal dimension: the interpreter raises TypeError; recorded, not judged
         v, _ = _vec(r, system, False)
